@@ -286,6 +286,8 @@ class SSH_Socket(ReadBuf, WriteBuf):
             else:
                 payload = self.read(payload_length)
                 header.write(payload)
+            if len(payload) == 0:
+                raise SSH_Socket.InsufficientReadException('empty packet payload')
             packet_type = ord(payload[0:1])
             if sshv == 1:
                 rcrc = SSH1.crc32(padding + payload)
